@@ -311,7 +311,7 @@ def run_c08(tier, seed):
     v.add_violations(repc["mm"])
     v.extra["replay_chain"] = {"histories": len(chh), "executed": repc["n"]}
     # corrected definitions: the pair (n3, n2) is declared twice with different ratios, the later one is in force
-    red = tlc_nodes("nodes_redecl", 3, 3 if tier == "quick" else 4, 2 if tier == "quick" else 3, redecl=1)
+    red = tlc_nodes("nodes_redecl", 3, 3 if tier == "quick" else 4, 2, redecl=1)
     require_ok(red, "MC_ConvNodes[re-declarations]")
     v.add_tlc(red, "MC_ConvNodes nodes=3 with a second, different declaration for one pair (the later one replaces the earlier)")
     rh = red.exports.get("H", [])
